@@ -38,11 +38,14 @@ import (
 	"github.com/hyperledger/aries-framework-go/component/kmscrypto/secretlock/noop"
 	"github.com/hyperledger/aries-framework-go/component/models/did"
 	"github.com/hyperledger/aries-framework-go/component/storageutil/mem"
+	"github.com/hyperledger/aries-framework-go/component/kmscrypto/doc/util/fingerprint"
+	"github.com/hyperledger/aries-framework-go/pkg/didcomm/packager"
 	"github.com/hyperledger/aries-framework-go/pkg/didcomm/packer"
 	"github.com/hyperledger/aries-framework-go/pkg/didcomm/packer/anoncrypt"
 	"github.com/hyperledger/aries-framework-go/pkg/didcomm/packer/authcrypt"
 	legacyanon "github.com/hyperledger/aries-framework-go/pkg/didcomm/packer/legacy/anoncrypt"
 	legacyauth "github.com/hyperledger/aries-framework-go/pkg/didcomm/packer/legacy/authcrypt"
+	"github.com/hyperledger/aries-framework-go/pkg/didcomm/transport"
 	vdrapi "github.com/hyperledger/aries-framework-go/pkg/framework/aries/api/vdr"
 	mockprovider "github.com/hyperledger/aries-framework-go/pkg/mock/provider"
 	mockvdr "github.com/hyperledger/aries-framework-go/pkg/mock/vdr"
@@ -453,8 +456,68 @@ func c01Run(input string) string {
 		} else {
 			outs = append(outs, "second=fail")
 		}
+		// the same message through the PACKAGER of every party: media type profile -> packer, sender and recipient keys
+		// prepared from did:key ids or DID-URL key ids (g<i>)
+		outs = append(outs, envViaPackager(c, payload, parties, packers, len(input))...)
 	}
 	return strings.Join(outs, " ")
+}
+
+type envPkgAdapter struct{ p *packager.Packager }
+
+func (a envPkgAdapter) Pack(string, []byte, []byte, [][]byte) ([]byte, error) { return nil, fmt.Errorf("unused") }
+func (a envPkgAdapter) Unpack(b []byte) (*transport.Envelope, error)         { return a.p.UnpackMessage(b) }
+func (a envPkgAdapter) EncodingType() string                                 { return "" }
+
+func envViaPackager(c envCase, payload []byte, parties []*envParty, packers []packer.Packer, seed int) []string {
+	legacy := c.kind == "la" || c.kind == "ln"
+	var reg vdrapi.Registry = &mockvdr.MockVDRegistry{}
+	if c.kidstyle == "dd" && !legacy {
+		reg = buildEnvDocs(parties, c.kt, NewRng(uint64(seed))).registry()
+	}
+	var pkgs []*packager.Packager
+	for i := range parties {
+		pg, err := packager.New(&mockprovider.Provider{PackerList: []packer.Packer{packers[i]}, PackerValue: packers[i], VDRegistryValue: reg,
+			KMSValue: parties[i].kms})
+		if err != nil {
+			return []string{"gnew=fail"}
+		}
+		pkgs = append(pkgs, pg)
+	}
+	env := &transport.Envelope{Message: payload}
+	keyID := func(p *envParty) string {
+		switch {
+		case legacy:
+			dk, _ := fingerprint.CreateDIDKey(p.rawPub)
+			return dk
+		case c.kidstyle == "dd":
+			return p.kaID
+		}
+		return p.didKey
+	}
+	if legacy {
+		env.MediaTypeProfile = transport.MediaTypeRFC0019EncryptedEnvelope
+	} else {
+		env.MediaTypeProfile = transport.MediaTypeDIDCommV2Profile
+	}
+	if c.kind == "aj" || c.kind == "la" {
+		env.FromKey = []byte(keyID(parties[0]))
+	}
+	for i := 1; i <= c.nrec; i++ {
+		env.ToKeys = append(env.ToKeys, keyID(parties[i]))
+	}
+	packed, err := pkgs[0].PackMessage(env)
+	if err != nil {
+		if os_trace() {
+			fmt.Fprintln(os.Stderr, "packager:", err)
+		}
+		return []string{"gpack=fail"}
+	}
+	var outs []string
+	for i, p := range parties {
+		outs = append(outs, fmt.Sprintf("g%d=%s", i, envUnpack(envPkgAdapter{pkgs[i]}, packed).show(payload, parties[0], p, legacy, c.kidstyle)))
+	}
+	return outs
 }
 
 // envForgeSkid: no private key of the sender is involved.
